@@ -4,9 +4,11 @@ import (
 	"github.com/scionproto/scion/zz_verif/verif"
 )
 
+// C46, part 1: format -> parse round trips for all values.
+
 // c46Opts returns the format options selected by the entry parameters:
-// prefix: 0/1; sep: 0 = default, 1 = ":", 2 = "_" (WithFileSeparator), 3 = "" (documented to
-// fall back to ':'), 4 = "--" (custom multi-byte separator).
+// prefix: 0/1 (WithDefaultPrefix); sep: 0 = default, 1 = ":", 2 = "_" (WithFileSeparator),
+// 4 = "--" (a custom multi-byte separator). The empty separator has its own entries below.
 func c46Opts() []FormatOption {
 	var opts []FormatOption
 	if verif.Param("prefix") == 1 {
@@ -17,12 +19,22 @@ func c46Opts() []FormatOption {
 		opts = append(opts, WithSeparator(":"))
 	case 2:
 		opts = append(opts, WithFileSeparator())
-	case 3:
-		opts = append(opts, WithSeparator(""))
 	case 4:
 		opts = append(opts, WithSeparator("--"))
 	}
 	return opts
+}
+
+// c46AS draws an AS number of the class selected by parameter bgp: 1 = decimal class
+// (0..2^32-1), 0 = hex class (2^32..2^48-1).
+func c46AS() AS {
+	if verif.Param("bgp") == 1 {
+		return AS(verif.NondetU32("as"))
+	}
+	as := AS(verif.NondetU64("as"))
+	verif.Assume(as > MaxBGPAS)
+	verif.Assume(as <= MaxAS)
+	return as
 }
 
 // VerifC46ISD: every ISD number formats to text that parses back to itself.
@@ -42,13 +54,7 @@ func VerifC46ISD() {
 // VerifC46AS: every AS number (decimal up to 2^32-1, grouped hex above) formats to text that
 // parses back to itself under the same options.
 func VerifC46AS() {
-	as := AS(verif.NondetU64("as"))
-	verif.Assume(as <= MaxAS)
-	if verif.Param("bgp") == 1 {
-		verif.Assume(as <= MaxBGPAS)
-	} else {
-		verif.Assume(as > MaxBGPAS)
-	}
+	as := c46AS()
 	opts := c46Opts()
 	s := FormatAS(as, opts...)
 	back, err := ParseFormattedAS(s, opts...)
@@ -64,14 +70,42 @@ func VerifC46AS() {
 	verif.Cover("as")
 }
 
+// VerifC46ASEmptySep: "any custom separator, where an empty separator falls back to ':' as
+// documented" (doc comment of WithSeparator: "In case of the empty string, the ':' is used").
+func VerifC46ASEmptySep() {
+	as := c46AS()
+	s := FormatAS(as, WithSeparator(""))
+	ref := FormatAS(as, WithSeparator(":"))
+	back, err := ParseFormattedAS(s, WithSeparator(""))
+	verif.Observe("fmt", s, ref, err == nil, uint64(back))
+	verif.Cover("empty-sep")
+	verif.Assert("empty-separator-falls-back-to-colon", s == ref)
+	verif.Assert("as-roundtrip-empty-separator", err == nil && back == as)
+}
+
+// VerifC46IAEmptySep: the same for ISD-AS pairs.
+func VerifC46IAEmptySep() {
+	ia := c46IA()
+	s := FormatIA(ia, WithSeparator(""))
+	ref := FormatIA(ia, WithSeparator(":"))
+	back, err := ParseFormattedIA(s, WithSeparator(""))
+	verif.Observe("fmt", s, ref, err == nil, uint64(back))
+	verif.Assert("ia-empty-separator-falls-back-to-colon", s == ref)
+	verif.Assert("ia-roundtrip-empty-separator", err == nil && back == ia)
+}
+
+func c46IA() IA {
+	if verif.Param("bgp") == 1 {
+		return IA(uint64(verif.NondetU16("isd"))<<ASBits | uint64(verif.NondetU32("as")))
+	}
+	ia := IA(verif.NondetU64("ia"))
+	verif.Assume(ia.AS() > MaxBGPAS)
+	return ia
+}
+
 // VerifC46IA: ISD-AS pairs.
 func VerifC46IA() {
-	ia := IA(verif.NondetU64("ia"))
-	if verif.Param("bgp") == 1 {
-		verif.Assume(ia.AS() <= MaxBGPAS)
-	} else {
-		verif.Assume(ia.AS() > MaxBGPAS)
-	}
+	ia := c46IA()
 	opts := c46Opts()
 	s := FormatIA(ia, opts...)
 	back, err := ParseFormattedIA(s, opts...)
@@ -80,6 +114,9 @@ func VerifC46IA() {
 	if verif.Param("sep") == 0 && verif.Param("prefix") == 0 {
 		b2, err := ParseIA(ia.String())
 		verif.Assert("ia-string-roundtrip", err == nil && b2 == ia)
+	}
+	if verif.Param("sep") == 0 && verif.Param("prefix") == 0 && verif.Param("bgp") == 1 {
+		// the wrappers around ParseIA/String (same code for both AS classes)
 		txt, err := ia.MarshalText()
 		var b3 IA
 		verif.Assert("ia-text-roundtrip", err == nil && b3.UnmarshalText(txt) == nil && b3 == ia)
@@ -89,94 +126,65 @@ func VerifC46IA() {
 	verif.Cover("ia")
 }
 
-// ---- rejection: accepted text denotes the returned value -------------------------------------
-
-func isDec(c byte) bool { return '0' <= c && c <= '9' }
-
-func hexVal(c byte) (uint64, bool) {
-	switch {
-	case '0' <= c && c <= '9':
-		return uint64(c - '0'), true
-	case 'a' <= c && c <= 'f':
-		return uint64(c-'a') + 10, true
-	case 'A' <= c && c <= 'F':
-		return uint64(c-'A') + 10, true
+// c46ValidSVC: the service addresses the text format has names for (DS, CS, Wildcard, each
+// anycast or multicast). Other 16-bit values print as a diagnostic "<SVC:0x....>" and are
+// outside the claim.
+func c46ValidSVC(svc SVC) bool {
+	base := svc &^ SVCMcast
+	ok := base == SvcDS
+	if base == SvcCS {
+		ok = true
 	}
-	return 0, false
+	if base == SvcWildcard {
+		ok = true
+	}
+	return ok
 }
 
-// refDec: reference value of a non-empty all-decimal string (saturating well above any limit).
-func refDec(b []byte) (v uint64, ok bool) {
-	if len(b) == 0 {
-		return 0, false
+// VerifC46SVC: service addresses and SVC host addresses.
+func VerifC46SVC() {
+	svc := SVC(verif.NondetU16("svc"))
+	verif.Assume(c46ValidSVC(svc))
+	s := svc.String()
+	back, err := ParseSVC(s)
+	verif.Observe("svc", s, err == nil, uint16(back))
+	verif.Assert("svc-roundtrip", err == nil && back == svc)
+	h := HostSVC(svc)
+	hb, err := ParseHost(h.String())
+	verif.Assert("host-svc-roundtrip", err == nil && hb.Type() == HostTypeSVC && hb.SVC() == svc && hb == h)
+	var h2 Host
+	verif.Assert("host-svc-set-roundtrip", h2.Set(h.String()) == nil && h2 == h)
+	if svc&SVCMcast != 0 {
+		verif.Cover("svc-mcast")
 	}
-	ok = true
-	for _, c := range b {
-		ok = ok && isDec(c)
-		if v < 1<<40 {
-			v = v*10 + uint64(c-'0')
-		}
-	}
-	return v, ok
+	verif.Cover("svc")
 }
 
-// VerifC46ParseISD: ParseISD on an arbitrary string of the given length accepts exactly the
-// decimal numerals <= 65535 and returns the denoted number.
-func VerifC46ParseISD() {
-	n := verif.Param("len")
-	b := verif.NondetBytes("s", n)
-	isd, err := ParseISD(string(b))
-	v, ok := refDec(b)
-	want := ok && v <= 65535
-	verif.Observe("parse", err == nil, uint16(isd))
-	verif.Assert("parse-isd-accepts-exactly-numerals-in-range", (err == nil) == want)
-	if err == nil {
-		verif.Assert("parse-isd-value", uint64(isd) == v)
-		verif.Cover("isd-accepted")
-	}
+// VerifC46AddrSVC: full SCION address "isd-as,host" with a service host.
+func VerifC46AddrSVC() {
+	ia := c46IA()
+	svc := SVC(verif.Param("svc"))
+	a := Addr{IA: ia, Host: HostSVC(svc)}
+	s := a.String()
+	back, err := ParseAddr(s)
+	verif.Observe("addr", s, err == nil, uint64(back.IA))
+	verif.Assert("addr-roundtrip", err == nil && back == a)
+	txt, err := a.MarshalText()
+	var b2 Addr
+	verif.Assert("addr-text-roundtrip", err == nil && b2.UnmarshalText(txt) == nil && b2 == a)
+	verif.Cover("addr")
 }
 
-// VerifC46ParseAS: ParseAS accepts exactly decimal numerals <= 2^32-1 or three ':'-separated
-// hex groups of 1..4 digits, and returns the denoted number.
-func VerifC46ParseAS() {
-	n := verif.Param("len")
-	b := verif.NondetBytes("s", n)
-	as, err := ParseAS(string(b))
-	verif.Observe("parse", err == nil, uint64(as))
-	// reference grammar
-	colons := 0
-	for _, c := range b {
-		if c == ':' {
-			colons++
-		}
-	}
-	var want bool
-	var val uint64
-	if colons == 0 {
-		v, ok := refDec(b)
-		want, val = ok && v <= 0xffffffff, v
-	} else if colons == 2 {
-		want = true
-		var grp uint64
-		digits := 0
-		for _, c := range b {
-			if c == ':' {
-				want = want && digits >= 1 && digits <= 4
-				val = val<<16 | grp
-				grp, digits = 0, 0
-				continue
-			}
-			h, ok := hexVal(c)
-			want = want && ok
-			grp = (grp<<4 | h) & 0xfffff
-			digits++
-		}
-		want = want && digits >= 1 && digits <= 4
-		val = val<<16 | grp
-	}
-	verif.Assert("parse-as-accepts-exactly-the-grammar", (err == nil) == want)
-	if err == nil {
-		verif.Assert("parse-as-value", uint64(as) == val)
-		verif.Cover("as-accepted")
-	}
+// ---- reachability twins: the assertions below must be violated ---------------------------------
+
+func VerifC46TwinRoundtrip() {
+	as := c46AS()
+	back, err := ParseAS(FormatAS(as))
+	verif.Assert("twin-roundtrip", err != nil || back != as)
+}
+
+func VerifC46TwinIA() {
+	ia := c46IA()
+	back, err := ParseIA(ia.String())
+	verif.Assert("twin-ia", err == nil && back.AS() != ia.AS())
 }
